@@ -192,8 +192,28 @@ class Engine:
         fid = st.nframes
         for i, a in enumerate(args):
             st.mem[(fid, i + 1)] = a
+        return self._explore(fn, fid, [(0, st)], depth)
+
+    def run_region(self, fn, fid, bb, s, stops):
+        """Continue the top-level frame `fid` of fn from block bb in state s until one of the blocks in `stops` is reached (outcome kind
+        'stop', where = (path, block)); other outcomes (return / panic / cut) as usual. Used to summarise single-entry regions of long
+        straight-line functions (a match and its arms) instead of multiplying traces."""
+        s = s.fork()
+        for b in stops:
+            s.visits[(fid, b)] = 10 ** 6
+        self.npaths = 0
+        self.steps = 0
+        outs = self._explore(fn, fid, [(bb, s)], 0, first_free=True)
+        for o in outs:
+            if o.kind == 'cut' and isinstance(o.site, tuple) and len(o.site) == 2 and o.site[1] in stops:
+                o.kind = 'stop'
+                o.st.cut = False
+                for b in stops:
+                    o.st.visits.pop((fid, b), None)
+        return outs
+
+    def _explore(self, fn, fid, work, depth, first_free=False):
         outs = []
-        work = [(0, st)]
         while work:
             bb, s = work.pop()
             while True:
@@ -201,8 +221,12 @@ class Engine:
                 if self.steps > self.max_steps:
                     raise TooManyPaths('step budget exhausted in %s' % fn['path'])
                 vk = (fid, bb)
-                n = s.visits.get(vk, 0) + 1
-                s.visits[vk] = n
+                if first_free:
+                    first_free = False        # the region's own entry block may be one of its stops (loops): do not count the entry
+                    n = 1
+                else:
+                    n = s.visits.get(vk, 0) + 1
+                    s.visits[vk] = n
                 if n > self.loop_visits:
                     if self.loop_closed(fn, bb):
                         outs.append(Outcome('loop-closed', TOP, s, (fn['path'], bb)))
